@@ -19,6 +19,7 @@ import (
 	"path/filepath"
 	"sort"
 	"strings"
+	"time"
 
 	"github.com/rs/zerolog"
 	"github.com/sassoftware/relic/v8/cmdline/shared"
@@ -47,23 +48,23 @@ type beh struct {
 var (
 	epSeq   = []string{"sign", "getkey", "listkeys"}
 	nameSeq = []string{"ka", "kb", "kc", "unknown"}
-	peerSeq = []string{"untrusted", "trusted"}
+	peerSeq = []string{"untrusted", "trusted", "neighbour"}
 	xffSeq  = []string{"none", "one"}
-	tlsSeq  = []string{"fp", "ca", "canoeku", "unk", "none"}
-	hdrSeq  = []string{"fp", "ca", "canoeku", "unk", "none", "bad"}
+	tlsSeq  = []string{"fp", "ca", "canoeku", "unk", "none", "casamekey", "caexpired"}
+	hdrSeq  = []string{"fp", "ca", "canoeku", "unk", "none", "bad", "casamekey", "caexpired"}
 )
 
 type request struct{ ep, name, peer, xff, tls, hdr string }
 
 func reqAt(i int) request {
-	h := i % 6
-	i /= 6
-	t := i % 5
-	i /= 5
+	h := i % 8
+	i /= 8
+	t := i % 7
+	i /= 7
 	x := i % 2
 	i /= 2
-	p := i % 2
-	i /= 2
+	p := i % 3
+	i /= 3
 	n := i % 4
 	e := i / 4
 	return request{epSeq[e], nameSeq[n], peerSeq[p], xffSeq[x], tlsSeq[t], hdrSeq[h]}
@@ -71,12 +72,13 @@ func reqAt(i int) request {
 
 const (
 	untrustedAddr = "203.0.113.9"
-	trustedAddr   = "10.1.1.1"
+	trustedAddr   = "10.1.1.1"   // configured as a bare IP
+	neighbourAddr = "10.200.7.9" // same classful (/8) network as the bare-IP proxy, not trusted
 	clientAddr    = "198.51.100.7"
 )
 
 type material struct {
-	fp, ca, caLeaf, caNoEKU, unk *certs.Cert
+	fp, ca, caLeaf, caNoEKU, unk, caSameKey, caExpired *certs.Cert
 }
 
 func newMaterial() *material {
@@ -85,6 +87,9 @@ func newMaterial() *material {
 	m.ca = certs.New(certs.Opt{CN: "client CA", CA: true}, nil)
 	m.caLeaf = certs.New(certs.Opt{CN: "ca client", EKU: []x509.ExtKeyUsage{x509.ExtKeyUsageClientAuth}}, m.ca)
 	m.caNoEKU = certs.New(certs.Opt{CN: "ca client wrong eku", EKU: []x509.ExtKeyUsage{x509.ExtKeyUsageServerAuth}}, m.ca)
+	m.caSameKey = certs.New(certs.Opt{CN: "ca client", EKU: []x509.ExtKeyUsage{x509.ExtKeyUsageClientAuth}, Key: m.caLeaf.Key}, nil)
+	m.caExpired = certs.New(certs.Opt{CN: "ca client expired", EKU: []x509.ExtKeyUsage{x509.ExtKeyUsageClientAuth},
+		NotBefore: time.Now().Add(-48 * time.Hour), NotAfter: time.Now().Add(-24 * time.Hour)}, m.ca)
 	m.unk = certs.New(certs.Opt{CN: "stranger", EKU: []x509.ExtKeyUsage{x509.ExtKeyUsageClientAuth}}, nil)
 	return m
 }
@@ -99,6 +104,10 @@ func (m *material) chain(id string) []*certs.Cert {
 		return []*certs.Cert{m.caNoEKU}
 	case "unk":
 		return []*certs.Cert{m.unk}
+	case "casamekey":
+		return []*certs.Cert{m.caSameKey}
+	case "caexpired":
+		return []*certs.Cert{m.caExpired}
 	}
 	return nil
 }
@@ -143,7 +152,7 @@ func (m *material) writeConfig(dir string, b *beh) string {
 	}
 	audit := filepath.Join(dir, "audit.log")
 	fmt.Fprintf(&sb, "auditfile: %s\n", audit)
-	sb.WriteString("server:\n  listen: \":0\"\n  tokencheckinterval: 3600\n  tokencacheseconds: -1\n  trustedproxies: [\"10.1.1.0/24\"]\n")
+	sb.WriteString("server:\n  listen: \":0\"\n  tokencheckinterval: 3600\n  tokencacheseconds: -1\n  trustedproxies: [\"10.1.1.1\", \"192.168.77.0/24\"]\n")
 	sb.WriteString("clients:\n")
 	fmt.Fprintf(&sb, "  %s:\n    nickname: fpclient\n    roles: %s\n", m.fp.Fingerprint(), yamlList(b.Croles["fp"]))
 	fmt.Fprintf(&sb, "  caclient:\n    nickname: caclient\n    roles: %s\n    certificate: |\n%s", yamlList(b.Croles["ca"]), indent(m.ca.PEM(), "      "))
@@ -166,6 +175,8 @@ func (m *material) build(r request) *http.Request {
 	}
 	if r.peer == "trusted" {
 		req.RemoteAddr = trustedAddr + ":4444"
+	} else if r.peer == "neighbour" {
+		req.RemoteAddr = neighbourAddr + ":4444"
 	} else {
 		req.RemoteAddr = untrustedAddr + ":5555"
 	}
@@ -226,7 +237,7 @@ func replayOne(r *res.Result, m *material, dir string, b *beh) {
 		expStatus := code / 10000
 		expTouched := (code/1000)%10 == 1
 		expMask := (code / 10) % 100
-		expAddr := []string{untrustedAddr, trustedAddr, clientAddr}[code%10]
+		expAddr := []string{untrustedAddr, trustedAddr, clientAddr, neighbourAddr}[code%10]
 		rec := httptest.NewRecorder()
 		h.ServeHTTP(rec, m.build(rq))
 		calls := faketoken.TakeCalls()
